@@ -145,7 +145,8 @@ def newton_variant_unit(variant):
 
         A["pygradflow.implicit_func.StepFunc.compute_active_set"] = cas
         A[SOL + "standard_step_solver.StandardStepSolver.solve"] = lambda it, s, i: (log.append(("solve", i)), Opaque("step"))[1]
-        meth = u.call("pygradflow.newton.newton_method", problem, params, orig, dt, rho, None)
+        tau = u.real("tau") if u.path.choose("explicit tau") else None
+        meth = u.call("pygradflow.newton.newton_method", problem, params, orig, dt, rho, tau)
         u.ensure(meth.cls.name == f"{variant}NewtonMethod", "dispatch")
         r = u.method(meth, "step", orig)
         k = [i for i, e in enumerate(log) if e[0] == "solve"]
@@ -155,6 +156,7 @@ def newton_variant_unit(variant):
         a = [e for e in before if e[0] == "active"]
         u.ensure(d and d[-1][1] is orig, "first_step_uses_derivatives_of_orig_iterate")
         u.ensure(bool(a) and acts.get(id(a[-1][1]), (None,))[0] is orig and acts[id(a[-1][1])][1] is rho, "first_step_uses_the_active_set_computed_at_orig_iterate")
+        u.ensure(bool(a) and acts.get(id(a[-1][1]), (None, None, 0))[2] is tau, "first_step_active_set_uses_the_given_tau(same_rule_for_every_variant)")
         u.ensure(log[0][0] == "make" and log[0][1] is orig and log[0][2] is dt and log[0][3] is rho, "step_solver_built_for(orig,dt,rho)")
         u.cover("end")
 
